@@ -331,7 +331,44 @@ def rule_for_scope(ctx):
             ctx._add(R, o.key.split("/", 1)[1], o.ok, o.detail, o.site)
 
 
+def rule_suffix_kept(ctx, R="C10.9"):
+    ctx.rule(R, "the shadowing suffix is part of a variable's identity everywhere after the renaming: no code outside the definition of VariableName drops it (`without_suffix`), and the SSA environment asks for the kind of the name it is given")
+    import facts as _facts
+
+    n = 0
+    for f in sorted(_facts.ast()):
+        if not f.startswith(("program_structure/src/", "program_analysis/src/")) or f.startswith("program_structure_tests"):
+            continue
+        for q, fn in fns_in_file(f):
+            if not fn.get("body") or "tests" in q:
+                continue
+            n += 1
+            if f.endswith("intermediate_representation/ir.rs") and "VariableName" in q:
+                continue
+            hits = [m for m in walk(fn["body"]) if m["k"] == "MethodCall" and m["method"] == "without_suffix"]
+            if hits:
+                ctx.bad(R, "%s::%s/drops-the-suffix" % (f.rsplit("/", 1)[-1][:-3], fn["name"]), "`%s`: a renamed declaration (`n.0`) is then taken for the declaration it shadows" % render(hits[0])[:60], site(f, hits[0]))
+    ctx.floor(R, "functions scanned for without_suffix", n, 400)
+    isl = find_fn("program_structure/src/control_flow_graph/ssa_impl.rs", "is_local", "Environment")
+    if isl is None:
+        ctx.missing(R, "ssa Environment::is_local")
+    else:
+        import sgrep
+
+        pv = sgrep.params(isl)
+        gt = [m for m in walk(isl["body"]) if m["k"] == "MethodCall" and m["method"] in ("get_type", "get_declaration") and len(m["args"]) == 1]
+        if not gt:
+            gt = [m for x in walk(isl["body"]) if x["k"] == "Macro" and x.get("parsed") for a_ in x.get("args", []) for m in walk(a_) if m["k"] == "MethodCall" and m["method"] in ("get_type", "get_declaration") and len(m["args"]) == 1]
+        ok = bool(pv) and len(gt) == 1 and render(strip(gt[0]["args"][0])).replace(" ", "").lstrip("&") == pv[0]
+        ctx.check(R, "ssa Environment::is_local/kind-of-the-given-name", ok, "kind looked up for `%s`" % (render(gt[0]["args"][0]) if gt else "?"), site("program_structure/src/control_flow_graph/ssa_impl.rs", isl))
+
+
 def run(ctx):
+    import c04
+
+    rule_suffix_kept(ctx)
+
+    ctx.include("C10.8", "uses resolve to the declaration in scope: declarations are looked up under name and shadowing suffix (shared with C04.14)", c04.rule_declaration_lookup)
     rule_scopes(ctx)
     rule_renaming(ctx)
     rule_separator(ctx)
